@@ -203,6 +203,27 @@ def runCrcMany (n hex : String) : String :=
       hexOf [UInt8.ofNat ((h.sum16.toNat / 256) % 256), UInt8.ofNat (h.sum16.toNat % 256)])
   | _, _ => "bad-arg"
 
+/-- bytes of the harness's congruential generator (`x ← (1103515245·x + 12345) mod 2^31`, byte = bits 16–23) -/
+def lcgBytes (seed n : Nat) : Bytes :=
+  let rec go : Nat → Nat → Bytes → Bytes
+    | 0, _, acc => acc.reverse
+    | k + 1, x, acc =>
+      let x' := (1103515245 * x + 12345) % 2147483648
+      go k x' (UInt8.ofNat ((x' / 65536) % 256) :: acc)
+  go n seed []
+
+/-- `crcbig <seed> <len> <cuts>`: a long generated buffer written in the given pieces: Sum16 of the
+    pieces, Checksum of the whole, Checksum of the whole followed by its sum little-endian -/
+def runCrcBig (seed len cuts : String) : String :=
+  match parseNat? seed, parseNat? len with
+  | some sd, some n =>
+    let data := lcgBytes sd n
+    let parts := splitAt data (if cuts == "-" then [] else parseNatList cuts '.')
+    let h := parts.foldl Crc.Hash.write Crc.Hash.new
+    let c := Crc.checksum data
+    s!"{h.sum16.toNat} {c.toNat} {(Crc.checksum (data ++ [UInt8.ofNat (c.toNat % 256), UInt8.ofNat (c.toNat / 256)])).toNat}"
+  | _, _ => "bad-arg"
+
 /-- coordinates: `ll lat|lng <semicircles>` → stored value, invalid flag, degrees numerator (×2^-31) -/
 def runLL (which s : String) : String :=
   match parseInt? s with
@@ -363,6 +384,7 @@ def runLine1 (line : String) : String :=
   | ["crcsplit", cuts, hex] => runCrcSplit cuts hex
   | ["crcsplit", cuts] => runCrcSplit cuts ""
   | ["crcmany", n, hex] => runCrcMany n hex
+  | ["crcbig", seed, len, cuts] => runCrcBig seed len cuts
   | ["dec", entry, opts, rspec, accu, hex] => runDec entry opts rspec accu hex
   | ["dec", entry, opts, rspec, accu] => runDec entry opts rspec accu ""
   | _ => "bad-op"
